@@ -248,6 +248,9 @@ class Responder:
         return self.verdicts.get(rail, {}).get(tok or "", "allow")
 
     def llm_text(self, tok, kind="g"):
+        body = (self.spec.get("llm_body") or {}).get(tok or "")
+        if body is not None:
+            return "LLM[%s%s] %s" % (kind, tok or "#none#", body)
         return "LLM[%s%s] generated answer" % (kind, tok or "#none#")
 
     def intent_for(self, tok):
@@ -272,6 +275,11 @@ class Responder:
             if tail.startswith("$") and tail.endswith("="):
                 return ' "%s"' % self.llm_text(tok, "v")
             return '"%s"' % self.llm_text(tok, "x")
+        if self.spec.get("streaming") and self.spec.get("mode") == "single_call" and task not in ("generate_bot_message", "self_check_input", "self_check_output") \
+                and prompt.rstrip().endswith('"') and prompt.rstrip().split("\n")[-1].startswith("user "):
+            # with a streaming handler generation.py starts the single-call LLM task without labelling it (LLMCallInfo is
+            # only set on the non-streaming branch): recognise the call by the shape of its prompt
+            task = "generate_intent_steps_message"
         if task == "self_check_input":
             rail = self._shipped_rail("in")
             return "Yes" if self.verdict(rail, tok) == "block" else "No"
@@ -285,12 +293,17 @@ class Responder:
             if self.spec.get("mode") == "multistep":
                 return "bot answer other %s\nuser ask topic 0" % (tok or "x").strip("#")
             return "bot answer other %s" % (tok or "x").strip("#")
+        tail = (self.spec.get("llm_tail") or {}).get(tok or "", "")  # what a chatty LLM adds after the closing quote
         if task == "generate_bot_message":
-            return '  "%s"' % self.llm_text(tok, "m")
+            if self.spec.get("verbose_bot_message"):
+                # the format the default prompt of this task asks for (output parser verbose_v1); generation.py configures
+                # the streaming handler with the matching pattern  prefix='Bot message: "'  suffix='"'
+                return 'Bot message: "%s"%s' % (self.llm_text(tok, "m"), tail)
+            return '  "%s"%s' % (self.llm_text(tok, "m"), tail)
         if task == "generate_intent_steps_message":
             it = self.intent_for(tok)
             bot = "answer " + it[4:] if it.startswith("ask ") else "answer"
-            return '  %s\nbot %s\n  "%s"' % (it, bot, self.llm_text(tok, "s"))
+            return '  %s\nbot %s\n  "%s"%s' % (it, bot, self.llm_text(tok, "s"), tail)
         if task == "generate_value":
             return '"value %s"' % (tok or "")
         # general / passthrough / unknown
